@@ -120,12 +120,12 @@ impl Optimizer for SGD {
             }
             // println!("{:?}", params);
 
-            if crate::statistics::max(
-                &(0..param_len)
-                    .map(|i| rel_diff(params[i].val(), prev_params[i].val()))
-                    .collect::<Vec<_>>(),
-            ) < f64::EPSILON
-            {
+            // converged once no parameter changes any more (relative to its magnitude); note that
+            // rel_diff compares magnitudes only, so a sign flip must be checked separately
+            if (0..param_len).all(|i| {
+                let (new, old) = (params[i].val(), prev_params[i].val());
+                new * old >= 0. && rel_diff(new, old) < f64::EPSILON
+            }) {
                 converged = true;
             }
 
